@@ -153,9 +153,9 @@ Proof.
   - exfalso. eapply Hne; eauto.
 Qed.
 
-Theorem find_base_never_raises (fuel e : nat) : find_base s1 s2 fuel <> Failed e.
+Theorem old_base_never_raises (fuel e : nat) : find_base_old s1 s2 fuel <> Failed e.
 Proof.
-  unfold find_base.
+  unfold find_base_old.
   pose proof (first_search_never_raises s1 s2 fuel) as Hne.
   pose proof (first_search_sound s1 s2 fuel) as Hs.
   destruct (find s1 s2 fuel (s_root s1) (s_root s2) init_fstate) as [[[|] st]| |e'] eqn:E.
@@ -165,10 +165,10 @@ Proof.
   - exfalso. eapply Hne; eauto.
 Qed.
 
-Theorem find_base_good (fuel : nat) d1 d2 :
-  find_base s1 s2 fuel = Found d1 d2 -> sm_all (good s1) d1 /\ sm_all (good s2) d2.
+Theorem old_base_good (fuel : nat) d1 d2 :
+  find_base_old s1 s2 fuel = Found d1 d2 -> sm_all (good s1) d1 /\ sm_all (good s2) d2.
 Proof.
-  unfold find_base. pose proof (first_search_sound s1 s2 fuel) as Hs.
+  unfold find_base_old. pose proof (first_search_sound s1 s2 fuel) as Hs.
   destruct (find s1 s2 fuel (s_root s1) (s_root s2) init_fstate) as [[[|] st]| |e'] eqn:E; try discriminate.
   apply search_base_ok. eapply Hs; eauto.
 Qed.
